@@ -49,11 +49,16 @@ def prepare (ver ty : Str) (body : Bytes) : Except Err Bytes := do
   let ck := rjust0 (intStr ((byteSum d3 % 256 : Nat) : Int)) 3
   pure (d3 ++ (fieldBytes 10 ck ++ [1]))
 
-/-- `send_msg`: the bytes given to `transport.write` and the message as mutated by the stamping -/
+/-- `segment.values.pop(tag, None)` for each of `ks` -/
+def dropKeys (ks : List Nat) (s : Seg) : Seg := s.filter (fun p => !ks.contains p.1)
+
+/-- `send_msg`: the bytes given to `transport.write` and the message as mutated by the stamping.  `_prepare_complete_msg` first
+    removes the four framing fields the message itself may carry (a message obtained from the reader and sent again): the session
+    writes BeginString, BodyLength, MsgType and CheckSum itself. -/
 def frame (ver : Str) (d : MsgDef) (se : Sess) (seq : Int) (time : Str) (m : Msg) : Except Err (Bytes × Msg) := do
   validateSeg d.body m.body
   let h ← stampHeader d.hdr se seq time m.hdr
-  let m' : Msg := { m with hdr := h }
+  let m' : Msg := { m with hdr := dropKeys [8, 9, 35] h, trl := dropKeys [10] m.trl }
   let b ← encMsg d m'
   let f ← prepare ver d.type b
   pure (f, m')
